@@ -276,6 +276,8 @@ class C17(Prop):
                     src = strgen.random_string(rng, strgen.TOKENS, 2, 10)
                 else:
                     src, _ = docgen.gen_doc(rng, common.cfg_general(j, 'quick'))
+                if j % 8 == 5:
+                    src = '\ufeff' + src      # a byte-order mark left by the editor
                 yield k, {'w': 'forms', 'src': src[:400], 'j': j}
         for j in range(600 if q else 9000):
             k += 1
